@@ -35,13 +35,13 @@ def Table.rectB (t : Table) : Bool := t.rows.all fun r => r.length == t.header.l
 /-- csvq's errors on the DML paths (lib/query/error_code.go) -/
 inductive Err
   | fieldAmbiguous | fieldNotExist | dupField | rowLen | selLen | updFieldNotExist | ambiguous
-  | keyNotSet | divZero | noTable | tableExists | tableFieldLen | other (code : Nat)
+  | keyNotSet | divZero | noTable | tableExists | tableFieldLen | canceled | other (code : Nat)
   deriving DecidableEq, Repr, Inhabited
 
 def Err.code : Err → Nat
   | .fieldAmbiguous => 10101 | .fieldNotExist => 10102 | .dupField => 10104 | .rowLen => 12101
   | .selLen => 12102 | .updFieldNotExist => 12201 | .ambiguous => 12202 | .keyNotSet => 13901
-  | .divZero => 30000 | .noTable => 11502 | .tableExists => 90182 | .tableFieldLen => 11401 | .other c => c
+  | .divZero => 30000 | .noTable => 11502 | .tableExists => 90182 | .tableFieldLen => 11401 | .canceled => 90081 | .other c => c
 
 def isT : Tern → Bool
   | .T => true
@@ -556,6 +556,27 @@ def stmtImpl (s : State) (st : Stmt) : State × Result :=
   | .ok outs =>
     ({ s with tables := publish s.tables outs, marks := markAll s.marks outs },
      .ok ((outs.filter fun o => !o.isNew).map fun o => (o.name, o.count)))
+
+/-- where a cancellation (`ctx.Err() != nil`) is noticed -/
+inductive CancelPoint
+  /-- at one of the context checks before anything is published (loading, filtering, evaluating) -/
+  | inBody
+  /-- in the publication loop, after `k` tables were stored: only Delete's loop checks the context there
+      (query.go:674-677, `for k, v := range viewsToDelete { if ctx.Err() != nil { return … } … Set(v) }`) -/
+  | inPublish (k : Nat)
+
+/-- a statement during which the context is cancelled -/
+def stmtCancel (s : State) (st : Stmt) : CancelPoint → State × Result
+  | .inBody => (s, .error .canceled)
+  | .inPublish k =>
+    match st with
+    | .deleteMulti _ _ _ =>
+      match body s.tables st with
+      | .error e => (s, .error e)
+      | .ok outs =>
+        if k < outs.length then ({ s with tables := publish s.tables (outs.take k) }, .error .canceled)
+        else stmtImpl s st
+    | _ => stmtImpl s st
 
 /-- COMMIT: every marked table is written (file) / gets a restore point (temporary table) -/
 def commitTables (tables committed : Tables) : List String → Tables
